@@ -119,7 +119,48 @@ macro_rules! arrays {
     ($($n:literal)*) => { $( array_probe::<$n>(); )* };
 }
 
+/// Every outer container around one inner shape (two-level nestings, systematically).
+fn outers<I: Trace + 'static>(idesc: &str, mk: &dyn Fn(&Leaves) -> I) {
+    probe(&format!("tuple({})", idesc), |l| (mk(l),), plain);
+    probe(&format!("tuple(prim,{})", idesc), |l| (1u8, mk(l)), plain);
+    probe(&format!("tuple({},prim,{})", idesc, idesc), |l| (mk(l), 2u16, mk(l)), plain);
+    probe(&format!("arr({})", idesc), |l| [mk(l)], plain);
+    probe(&format!("arr({},{},{})", idesc, idesc, idesc), |l| [mk(l), mk(l), mk(l)], plain);
+    probe(&format!("vec({},{})", idesc, idesc), |l| vec![mk(l), mk(l)], plain);
+    probe(&format!("slice({},{})", idesc, idesc), |l| vec![mk(l), mk(l)].into_boxed_slice(), plain);
+    probe(&format!("box({})", idesc), |l| Box::new(mk(l)), plain);
+    probe(&format!("some({})", idesc), |l| Some(mk(l)), plain);
+    probe(&format!("ok({})", idesc), |l| Ok::<I, u8>(mk(l)), plain);
+    probe(&format!("err({})", idesc), |l| Err::<u8, I>(mk(l)), plain);
+    probe(&format!("cell0({})", idesc), |l| RefCell::new(mk(l)), plain);
+    probe(&format!("cell1({})", idesc), |l| RefCell::new(mk(l)), |c, run| {
+        let _g = c.borrow_mut();
+        run()
+    });
+    probe(&format!("md({})", idesc), |l| ManuallyDrop::new(mk(l)), plain);
+    probe(&format!("aus({})", idesc), |l| AssertUnwindSafe(mk(l)), plain);
+}
+
 pub fn containers() {
+    outers("cc", &|l| l.mk());
+    outers("tuple(cc,cc)", &|l| (l.mk(), l.mk()));
+    outers("arr(cc,cc)", &|l| [l.mk(), l.mk()]);
+    outers("vec(cc,cc)", &|l| vec![l.mk(), l.mk()]);
+    outers("slice(cc)", &|l| vec![l.mk()].into_boxed_slice());
+    outers("box(cc)", &|l| Box::new(l.mk()));
+    outers("some(cc)", &|l| Some(l.mk()));
+    outers("none", &|_| None::<Elem>);
+    outers("ok(cc)", &|l| Ok::<Elem, Elem>(l.mk()));
+    outers("err(cc)", &|l| Err::<Elem, Elem>(l.mk()));
+    outers("cell0(cc)", &|l| RefCell::new(l.mk()));
+    outers("md(cc)", &|l| ManuallyDrop::new(l.mk()));
+    outers("aus(cc)", &|l| AssertUnwindSafe(l.mk()));
+    outers("phantom", &|_| std::marker::PhantomData::<Cc<Leaf>>);
+    outers("prim", &|_| 3u32);
+    // three levels through the position most likely to be special-cased
+    outers("vec(md(cc))", &|l| vec![ManuallyDrop::new(l.mk())]);
+    outers("md(some(cc))", &|l| ManuallyDrop::new(Some(l.mk())));
+    outers("some(vec(cc,cc))", &|l| Some(vec![l.mk(), l.mk()]));
     // tuples 1..12, every element a Cc
     tuple_probe!("tuple(cc)"; a);
     tuple_probe!("tuple(cc,cc)"; a, b);
@@ -537,6 +578,33 @@ pub fn forward() {
                 bad += 1;
                 println!("forward-mismatch str {:?} {:?}", x, y);
             }
+        }
+    }
+    // the same allocation on both sides (a pointer and its clone): still the payload's semantics, not identity
+    for x in floats.iter() {
+        let a = Cc::new(*x);
+        let b = a.clone();
+        n += 1;
+        let ok = (a == b) == (x == x)
+            && (a != b) == (x != x)
+            && a.partial_cmp(&b) == x.partial_cmp(x)
+            && (a < b) == (x < x)
+            && (a <= b) == (x <= x)
+            && (a > b) == (x > x)
+            && (a >= b) == (x >= x)
+            && (a == a) == (x == x);
+        if !ok {
+            bad += 1;
+            println!("forward-mismatch same-allocation f64 {:?}", x);
+        }
+    }
+    for x in ints.iter() {
+        let a = Cc::new(*x);
+        let b = a.clone();
+        n += 1;
+        if !((a == b) && a.cmp(&b) == std::cmp::Ordering::Equal && hash_of(&a) == hash_of(&b) && Cc::ptr_eq(&a, &b)) {
+            bad += 1;
+            println!("forward-mismatch same-allocation i32 {}", x);
         }
     }
     let d: Cc<i32> = Default::default();
